@@ -6,6 +6,7 @@ package trzsz
 // TransferObs.tla (observables) and TransferTrace.tla (message level).
 
 import (
+	"runtime/debug"
 	"bytes"
 	"fmt"
 	"io"
@@ -190,16 +191,26 @@ func c01Nofile(d *vCtx) error {
 	if err != nil {
 		return err
 	}
+	// a descriptor that is only released by a finaliser is a leak: the collector must not hide it
+	defer debug.SetGCPercent(debug.SetGCPercent(-1))
 	var details []map[string]any
 	id := 900000
 	for _, upload := range []bool{true, false} {
-		for _, dirmode := range []bool{false, true} {
+		// 0/1: overwrite, single files / one directory; 2: no overwrite, one directory (sent as one archive
+		// stream by protocol 4) in which two entries in three are empty files
+		for variant := 0; variant < 3; variant++ {
+			dirmode := variant >= 1
 			c := &e2eCase{ID: id, Seed: d.seed + int64(id)}
-			c.Opts = e2eOpts{Upload: upload, Directory: dirmode, Overwrite: true, Protocol: 4, Timeout: 20, Bufsize: 1 << 20}
+			c.Opts = e2eOpts{Upload: upload, Directory: dirmode, Overwrite: variant < 2, Protocol: 4, Timeout: 20, Bufsize: 1 << 20}
 			for i := 0; i < nfiles; i++ {
 				rel := fmt.Sprintf("f%03d", i)
 				if dirmode {
 					rel = "many/" + rel
+				}
+				if variant == 2 && i%3 != 0 {
+					c.Nodes = append(c.Nodes, e2eNode{Rel: rel, Size: 0, Kind: i % 3})
+					c.Bases = append(c.Bases, "")
+					continue
 				}
 				c.Nodes = append(c.Nodes, e2eNode{Rel: rel, Size: int64(10 + i), Kind: i % 3})
 				c.Bases = append(c.Bases, "")
